@@ -67,6 +67,11 @@ impl Config {
         if c.l0_stall <= c.l0_mandatory {
             c.l0_stall = c.l0_mandatory + 1;
         }
+        if c.cache > 0 && focus != "C20" {
+            // a cached SST keeps its file open; 256 open files with a 64 MiB cache of tiny files is a
+            // resource limit the harness would impose, not a tree shape (only C20 quantifies over it)
+            c.max_open = 1 << 19;
+        }
         if focus == "C20" {
             c.max_files = *rng.pick(&[6usize, 8, 16, 64]);
             c.l0_stall = *rng.pick(&[2usize, 3, 4]);
@@ -414,6 +419,8 @@ pub struct History {
     /// histories without faults, so its verdict is recorded, not demanded
     pub crash_image: bool,
     last_staging: Option<String>,
+    /// observers read the tree shape from here when no store is attached (a store opened elsewhere)
+    pub levels_override: Option<Vec<Vec<SstMetadata>>>,
     /// calls of the compaction step so far; the call that performed the last rewriting compaction
     pub compaction_calls: u64,
     last_rewriting_call: u64,
@@ -484,6 +491,7 @@ impl History {
             ledger_checked: HashSet::new(),
             crash_image: false,
             last_staging: None,
+            levels_override: None,
             compaction_calls: 0,
             last_rewriting_call: 0,
             last_rewriting_step: 0,
@@ -518,6 +526,7 @@ impl History {
             ledger_checked: HashSet::new(),
             crash_image: false,
             last_staging: None,
+            levels_override: None,
             compaction_calls: 0,
             last_rewriting_call: 0,
             last_rewriting_step: 0,
@@ -535,6 +544,13 @@ impl History {
 
     fn count(&mut self, k: &str, n: u64) {
         *self.cov.entry(k.to_string()).or_insert(0) += n;
+    }
+
+    fn levels_now(&self) -> Vec<Vec<SstMetadata>> {
+        match &self.levels_override {
+            Some(l) => l.clone(),
+            None => self.tree().verif_levels(),
+        }
     }
 
     fn root_str(&self) -> String {
@@ -1270,7 +1286,7 @@ impl History {
     /// C01 structural invariant at a quiescent point.
     pub(crate) fn check_structure(&mut self, after_open: bool) -> Result<(), Viol> {
         let root = self.root.clone();
-        let levels = self.tree().verif_levels();
+        let levels = self.levels_now();
         if std::env::var("VH_TRACE_LEVELS").is_ok() {
             eprintln!("--- after step {} ({})", self.steps.len(), self.steps.last().cloned().unwrap_or_default());
             for (li, l) in levels.iter().enumerate() {
@@ -1297,7 +1313,9 @@ impl History {
         let mut order: Vec<&SstMetadata> = Vec::new();
         let mut order_level: Vec<usize> = Vec::new();
         let mut l0: Vec<&SstMetadata> = levels[0].iter().collect();
-        l0.sort_by_key(|m| std::cmp::Reverse(m.biggest_timestamp));
+        // exactly the store's order: a stable ascending sort walked backwards (ties matter)
+        l0.sort_by_key(|m| m.biggest_timestamp);
+        l0.reverse();
         order_level.extend(std::iter::repeat_n(0, l0.len()));
         order.extend(l0);
         for (li, level) in levels.iter().enumerate().skip(1) {
@@ -1326,7 +1344,8 @@ impl History {
                 if let Some((prev_min, pc)) = last_seen.get(k) {
                     if mx >= *prev_min && *pc != ci {
                         let all: Vec<&SstMetadata> = levels.iter().flatten().collect();
-                        let one_level_one_scc = order_level[*pc] == order_level[ci] && order_level[ci] >= 1 && same_component(&all, order[*pc], order[ci]);
+                        // recovery gives one level -- level 0 included -- to a whole component
+                        let one_level_one_scc = order_level[*pc] == order_level[ci] && same_component(&all, order[*pc], order[ci]);
                         let sig = if after_open && one_level_one_scc {
                             "recovery-places-overlapping-files-in-one-level"
                         } else if after_open {
@@ -1383,12 +1402,13 @@ impl History {
     /// Where do the versions of a key live?  (witness detail for read violations)
     fn explain_key(&mut self, key: &[u8]) -> String {
         let root = self.root.clone();
-        let levels = self.tree().verif_levels();
+        let levels = self.levels_now();
         let mut out = Vec::new();
         for (li, level) in levels.iter().enumerate() {
             let mut files: Vec<&SstMetadata> = level.iter().collect();
             if li == 0 {
-                files.sort_by_key(|m| std::cmp::Reverse(m.biggest_timestamp));
+                files.sort_by_key(|m| m.biggest_timestamp);
+                files.reverse();
             }
             for md in files {
                 let name = Setsum::from_digest(md.setsum).hexdigest();
